@@ -180,7 +180,18 @@ func (fx *FnExec) staticCall(st *State, fn *ssa.Function, args, bindings []*Term
 	}
 	// synthetic wrappers/thunks: resolve promoted methods to the underlying method
 	if con := fx.e.cons[fn]; con != nil && con.Pure {
-		return fx.pureApply(st, fn.String(), fn.Signature, nil, args, true)
+		res := fx.pureApply(st, fn.String(), fn.Signature, nil, args, true)
+		// postconditions of the pure function (verified as a unit of its own under its
+		// preconditions, which describe grammar-shaped arguments: assumption A4)
+		if len(con.Common.Ensures) > 0 {
+			pre := st.clone()
+			env := fx.contractEnv(fn, con, args, pre, st, res)
+			for _, en := range con.Common.Ensures {
+				fx.c.Assume(Implies(st.guard, env.boolExpr(en.Expr)))
+			}
+			fx.trusted("arguments of the pure function " + fn.Name() + " are grammar-shaped (its preconditions are assumed at call sites, A4)")
+		}
+		return res
 	}
 	if con := fx.e.cons[fn]; con != nil {
 		if con.Inline {
@@ -961,7 +972,15 @@ func (fx *FnExec) doTypeAssert(st *State, x *ssa.TypeAssert) {
 func (fx *FnExec) mapHeapNames(mt *types.Map) (dn, vn string, ds, vs Sort) {
 	ks := fx.mapKeySort(mt.Key())
 	es := fx.e.sortOf(mt.Elem())
-	id := sanitize(string(ks)) + "_" + sanitize(string(es))
+	// one component per map type (maps of different key or element types never share memory)
+	id := typeID(mt.Key()) + "_" + typeID(mt.Elem())
+	if len(id) > 60 {
+		h := 0
+		for _, c := range []byte(id) {
+			h = (h*131 + int(c)) % 1000000007
+		}
+		id = fmt.Sprintf("%s_%d", id[:48], h)
+	}
 	return "Md_" + id, "Mv_" + id, ArrSort(SInt, ArrSort(ks, SBool)), ArrSort(SInt, ArrSort(ks, es))
 }
 
